@@ -5,6 +5,7 @@ import (
 	"errors"
 	"fmt"
 	"runtime"
+	"strings"
 	gosync "sync"
 	"time"
 
@@ -298,7 +299,9 @@ type dlWrap struct {
 	n    *node
 }
 
-func (d *dlWrap) RuntimeData(ctx context.Context) (sync.RuntimeData, error) { return d.real.RuntimeData(ctx) }
+func (d *dlWrap) RuntimeData(ctx context.Context) (sync.RuntimeData, error) {
+	return d.real.RuntimeData(ctx)
+}
 
 func (d *dlWrap) Download(ctx context.Context, from uint64, drvCh chan sync.EVMBlock) {
 	g := &gen{ctx: ctx, chA: make(chan sync.EVMBlock, cap(drvCh)), drvCh: drvCh, exited: make(chan struct{})}
@@ -331,9 +334,83 @@ func (d *dlWrap) Download(ctx context.Context, from uint64, drvCh chan sync.EVMB
 // forwarded when the scheduler says so (unbuffered on both sides, as in the real subscription), which makes the two
 // rendezvous of the handshake scheduling points: "notify" (the driver's select takes the notification) and "ack" (the
 // detector goroutine runs again after the acknowledgement).
+// rdPredict follows one detection tick of the real detector through the headers it is served and tells when the tick is
+// about to notify its subscriber: the snapshot of the tracked blocks is taken when the finalized header is answered (the
+// detector takes its own right after it, nothing else runs in between), each answered header is compared as the detector
+// compares it, and the finalized block itself is compared with the cached header (no RPC).
+type rdPredict struct {
+	mu      gosync.Mutex
+	rd      *reorgdetector.ReorgDetector
+	nums    []uint64
+	hashes  []common.Hash
+	pos     int
+	fin     uint64
+	finHash common.Hash
+	active  bool
+	sec     int64 // the second in which the tick started (the detector reads the clock right after the finalized header)
+	e       *env
+	ch      chan uint64
+}
+
+func (p *rdPredict) onHeader(key string, n uint64, hash common.Hash, ok bool) {
+	p.mu.Lock()
+	defer p.mu.Unlock()
+	if !ok {
+		p.active = false
+		return
+	}
+	switch {
+	case key == "fin":
+		p.nums, p.hashes = p.rd.VerifTracked(syncerID)
+		p.pos, p.fin, p.finHash, p.active, p.sec = 0, n, hash, true, time.Now().Unix()
+	case strings.HasPrefix(key, "hdr:") && p.active:
+		if p.pos >= len(p.nums) || p.nums[p.pos] != n {
+			p.active = false // not where the prediction thinks the tick is: stop predicting (a notification would then be missed and reported as stuck)
+			return
+		}
+		if p.hashes[p.pos] != hash {
+			p.predict(n)
+			return
+		}
+		p.pos++
+	default:
+		return
+	}
+	for p.pos < len(p.nums) && p.nums[p.pos] == p.fin { // compared with the cached finalized header, no RPC
+		if p.hashes[p.pos] != p.finHash {
+			p.predict(p.fin)
+			return
+		}
+		p.pos++
+	}
+}
+
+func (p *rdPredict) predict(n uint64) {
+	p.active = false
+	// the detector records the event before it notifies; the primary key of reorg_event is (second of the tick's start,
+	// subscriber, from, to): the same range detected twice within one second fails the insert and ends the tick without a
+	// notification (DESIGN: information on reorg_event)
+	key := fmt.Sprintf("%d/%d/%d", p.sec, n, p.nums[len(p.nums)-1])
+	p.e.mu.Lock()
+	if p.e.rdEvents == nil {
+		p.e.rdEvents = map[string]bool{}
+	}
+	dup := p.e.rdEvents[key]
+	p.e.rdEvents[key] = true
+	p.e.mu.Unlock()
+	if dup {
+		return
+	}
+	select {
+	case p.ch <- n:
+	default:
+	}
+}
+
 type detWrap struct {
-	rd *reorgdetector.ReorgDetector
-	n  *node
+	pred *rdPredict
+	rd   *reorgdetector.ReorgDetector
+	n    *node
 }
 
 func (d *detWrap) GetFinalizedBlockType() aggkittypes.BlockNumberFinality {
@@ -358,22 +435,37 @@ func (d *detWrap) Subscribe(id string) (*reorgdetector.Subscription, error) {
 	return h, nil
 }
 
+// The relay must not take the detector's notification before the driver is ready to take it from the relay: a detector
+// may rely on its unbuffered hand-over ("once my send completed, the subscriber is handling the reorg and tracks nothing
+// until it acknowledges"). That the detector is about to notify is therefore not observed but predicted (rdPredict,
+// from the detector's own view of its tracked blocks and the headers it was served); the notification is taken from the
+// detector and handed to the driver in one go when the scheduler releases the notify gate (the driver is idle then).
 func (d *detWrap) relay(realSub, h *reorgdetector.Subscription) {
 	ctx := d.n.ctx
 	nop := func(bool) (tr.M, error) { return tr.M{}, nil }
 	for {
 		var n uint64
 		select {
-		case n = <-realSub.ReorgedBlock:
+		case n = <-d.pred.ch:
 		case <-ctx.Done():
 			return
 		}
-		if d.n.e.gated(ctx, "rd", fmt.Sprintf("notify:%d", n), "notify", nop) != nil {
-			return
-		}
-		select {
-		case h.ReorgedBlock <- n:
-		case <-ctx.Done():
+		if d.n.e.gated(ctx, "rd", fmt.Sprintf("notify:%d", n), "notify", func(bool) (tr.M, error) {
+			var m uint64
+			select {
+			case m = <-realSub.ReorgedBlock:
+			case <-time.After(10 * time.Second):
+				return tr.M{"res": "predicted notification did not come"}, errors.New("predicted notification did not come")
+			case <-ctx.Done():
+				return tr.M{}, ctx.Err()
+			}
+			select {
+			case h.ReorgedBlock <- m:
+			case <-ctx.Done():
+				return tr.M{}, ctx.Err()
+			}
+			return tr.M{"n": m}, nil
+		}) != nil {
 			return
 		}
 		select {
@@ -460,7 +552,8 @@ func startNode(e *env, cfg nodeCfg) (*node, error) {
 	ctx, cancel := context.WithCancel(context.Background())
 	n := &node{e: e, ctx: ctx, cancel: cancel, syncDone: make(chan struct{})}
 	// as cmd/run.go commonly orders it: detector Start (load tracked blocks), then the syncer subscribes
-	rd, err := reorgdetector.New(&client{who: "rd", e: e, tag: cfg.tag}, reorgdetector.Config{
+	pred := &rdPredict{ch: make(chan uint64, 1), e: e}
+	rd, err := reorgdetector.New(&client{who: "rd", e: e, tag: cfg.tag, onHeader: pred.onHeader}, reorgdetector.Config{
 		DBPath:              cfg.rdPath,
 		CheckReorgsInterval: cfgtypes.NewDuration(time.Millisecond),
 		FinalizedBlock:      aggkittypes.FinalizedBlock,
@@ -469,6 +562,7 @@ func startNode(e *env, cfg nodeCfg) (*node, error) {
 		cancel()
 		return nil, fmt.Errorf("reorgdetector.New: %w", err)
 	}
+	pred.rd = rd
 	if err := rd.Start(ctx); err != nil {
 		cancel()
 		return nil, fmt.Errorf("reorgdetector.Start: %w", err)
@@ -484,7 +578,7 @@ func startNode(e *env, cfg nodeCfg) (*node, error) {
 		cancel()
 		return nil, fmt.Errorf("NewEVMDownloader: %w", err)
 	}
-	drv, err := sync.NewEVMDriver(&detWrap{rd: rd, n: n}, &procWrap{e: e, in: cfg.st, compat: cfg.compat, n: n},
+	drv, err := sync.NewEVMDriver(&detWrap{rd: rd, n: n, pred: pred}, &procWrap{e: e, in: cfg.st, compat: cfg.compat, n: n},
 		&dlWrap{real: dl, n: n}, syncerID, cfg.buf, rh, true)
 	if err != nil {
 		cancel()
